@@ -135,6 +135,36 @@ def g_help_errors():
         raise Missing("cli.rs: process_help unknown-command literals")
     return ["Definition HELP_ERR_1 : list N := %s." % nlist(rust_bytes(hl[0])), "Definition HELP_ERR_2 : list N := %s." % nlist(rust_bytes(hl[1]))]
 
+LIT = r'"((?:[^"\\]|\\.)*)"'
+
+def g_macro_help():
+    # wording of the generated help (embedded-cli-macros): followed, not pinned - no property spells these texts out
+    hlp = read("embedded-cli-macros/src/command/help.rs")
+    mdl = read("embedded-cli-macros/src/command/model.rs")
+    mod = read("embedded-cli-macros/src/command/mod.rs")
+    out = []
+    m = find(hlp, r'write_title\(' + LIT + r'\)\?;\s*writer\.write_str\(" "\)\?;\s*parent\(writer\)', "help.rs: usage title")
+    out.append(("H_USAGE", m.group(1)))
+    m = find(hlp, r'if has_options \{\s*quote! \{ writer\.write_str\(' + LIT + r'\)', "help.rs: [OPTIONS] tag")
+    out.append(("H_OPTIONS_TAG", m.group(1)))
+    m = find(hlp, r'is_optional\(\) \{\s*usage_args = vec!\[quote! \{\s*writer\.write_str\(' + LIT + r'\)\?;\s*\}\]\s*\} else \{\s*usage_args = vec!\[quote! \{\s*writer\.write_str\(' + LIT + r'\)',
+             "help.rs: [COMMAND] / <COMMAND> in the usage line")
+    out += [("H_SUB_OPT", m.group(1)), ("H_SUB_REQ", m.group(2))]
+    m = find(hlp, r'write_title\(' + LIT + r'\)\?;\s*#\(#help_lines\)\*', "help.rs: arguments title")
+    out.append(("H_ARGUMENTS", m.group(1)))
+    m = find(hlp, r'write_title\(' + LIT + r'\)\?;\s*writer\.writeln_str\(""\)\?;\s*#\(#help_lines\)\*', "help.rs: options title")
+    out.append(("H_OPTIONS", m.group(1)))
+    m = find(hlp, r'name: ' + LIT + r'\.to_string\(\),\s*help: ' + LIT + r'\.to_string\(\)', "help.rs: the help option's own line")
+    out += [("H_HELP_OPT_NAMES", m.group(1)), ("H_HELP_OPT_TEXT", m.group(2))]
+    m = find(mdl, r'if self\.is_optional\(\) \{\s*' + LIT + r'\.to_string\(\)\s*\} else \{\s*' + LIT + r'\.to_string\(\)', "model.rs: usage name of a sub-command")
+    out += [("SUB_NAME_OPT", m.group(1)), ("SUB_NAME_REQ", m.group(2))]
+    m = find(mod, r'help_title\.unwrap_or\(' + LIT + r'\.to_string\(\)\)', "mod.rs: default help title")
+    out.append(("DEFAULT_HELP_TITLE", m.group(1)))
+    return ["Definition %s : list N := %s." % (n, nlist(rust_bytes(l))) for n, l in out]
+
+MACRO_HELP_NAMES = ["H_USAGE", "H_OPTIONS_TAG", "H_SUB_OPT", "H_SUB_REQ", "H_ARGUMENTS", "H_OPTIONS", "H_HELP_OPT_NAMES", "H_HELP_OPT_TEXT",
+                    "SUB_NAME_OPT", "SUB_NAME_REQ", "DEFAULT_HELP_TITLE"]
+
 GROUPS = [
     ("codes.rs constants", g_codes, ["BACKSPACE", "TABULATION", "LINE_FEED", "CARRIAGE_RETURN", "ESCAPE", "CRLF", "CURSOR_FORWARD", "CURSOR_BACKWARD",
                                      "CLEAR_LINE", "INSERT_CHAR", "DELETE_CHAR"]),
@@ -144,6 +174,7 @@ GROUPS = [
     ("help.rs help names", g_help_names, ["HELP_NAME", "HELP_LONG", "HELP_SHORT"]),
     ("cli.rs error texts", g_errors, ERR_NAMES),
     ("cli.rs help error texts", g_help_errors, ["HELP_ERR_1", "HELP_ERR_2"]),
+    ("macro crate help wording", g_macro_help, MACRO_HELP_NAMES),
 ]
 
 def main():
